@@ -15,6 +15,7 @@
 #include <signal.h>
 #include <fcntl.h>
 #include <poll.h>
+#include <sys/prctl.h>
 
 typedef struct { int status, timed_out; char out[8192]; size_t n; char err[2048]; size_t en; } run_t;
 
@@ -23,6 +24,7 @@ static void run_client(const char * exe, const char * casefile, char * const env
   memset(r, 0, sizeof *r);
   pid_t pid = fork();
   if (pid == 0) {
+    prctl(PR_SET_PDEATHSIG, SIGKILL);   /* a client must not outlive the case process (which the driver kills on its own timeout) */
     dup2(po[1], 1); dup2(pe[1], 2); close(po[0]); close(pe[0]); close(po[1]); close(pe[1]);
     for (int i = 0; envadd && envadd[i]; i++) putenv(envadd[i]);
     execl(exe, exe, casefile, (char *)0);
